@@ -579,7 +579,7 @@ theorem C11_negative_uid_wraps (v : Variant) (au : List Nat) (a : Arr) :
   · intro us hr
     have hall : ∀ u ∈ us, u < a.raw.length := by simpa [inRange] using hr
     have hw := wrapIds_nat a.raw.length us hall
-    cases v <;> simp [getItem, convertKey, hw]
+    cases v <;> simp [getItem, convertKey, hw, hr]
 
 /-! ### `grow` with arbitrary new identifiers -/
 
